@@ -10,7 +10,7 @@ RULE = ("DCOMPAT <sidW> <schemaW> <sidR> <schemaR> <def> <value> <expected>: pai
         "writer None, unknown fields ignored, unknown variant in an optional field None with every sibling intact) and consumes all bytes; for "
         "writers lacking a mandatory field the reader must fail (missing value where the position is absent). The fixed pairs f9o/f9n (index_only "
         "enum gains a variant), rgo/rgn (regular enum) and f10o/f10n (tagged optional at an index gap) are regression cases of the repaired "
-        "findings F9 / F10; no known class remains in this stream besides alias (F14, k= token computed by the generator). S= (specification side): for every "
+        "findings F9 / F10; aoa*/aom*/aoq* hold the enums in alias-Option fields (`type A = Option<E>`, optional through Decode::nil() only: the third unknown-variant arm of decode.rs), array and map encoding, index_only and regular; random schemas contain such fields too; no known class remains in this stream besides alias (F14, k= token computed by the generator). S= (specification side): for every "
         "case of the compatible-edit stream the model side evaluates the extracted DeriveMigrate.migrate — the reader's view that theorem C10_compat "
         "(Props/C10.v, schema level: all nested definitions in two versions) promises — and expects the implementation to return exactly that value at "
         "the end of the writer's bytes; for migrate = None (a variant the reader does not know outside every optional field) only the bytes are pinned "
